@@ -254,7 +254,7 @@ def run_structural(out, prop, tier, okverdicts, rule, classify, foci=FOCI, nq=25
                 m[3] = o1
                 meta.append(m)
             out.coverage["parts"]["cli_runs"] = len(cjobs)
-        verdicts, st, tr = common.validate_traces("TraceDoc", "TraceDoc.cfg", recs, wd, chunk=20000)
+        verdicts, st, tr = common.validate_traces("TraceDoc", "TraceDoc.cfg", recs, wd, chunk=4000)
         cov = out.coverage
         cov["states"] += st
         cov["transitions"] += tr
